@@ -44,6 +44,7 @@ SKEL = {
                      "            int? n = null;\n        }\n    }\n}\n"),
     ],
     "D": [
+        ("d-static-if", "static if (is(T == int)) { int a; } else { long a; }\nvoid f() { static if (a) { } }\nstatic assert(1);\n"),
         ("d-mod", "module m;\nimport std.stdio;\nalias int myint;\ntemplate T(U) { U v; }\nclass C : B {\n    this() { x = 1; }\n    ~this() { }\n    invariant() { assert(x); }\n"
                   "    int x;\n}\nvoid f(in int a, out int b, lazy int c)\n{\n    auto s = `raw`;\n    auto r = r\"wy\";\n    /+ nest /+ ed +/ +/\n    foreach (i; 0 .. 3) { b += i; }\n"
                   "    scope(exit) writeln(\"x\");\n    version (X) { } else { }\n    int[] arr = [1, 2];\n    auto t = a !is null ? arr[$ - 1] : cast(int) c;\n    unittest { }\n}\n"),
